@@ -1,6 +1,7 @@
 package main
 
 import (
+	"go/constant"
 	"fmt"
 	"go/token"
 	"go/types"
@@ -378,6 +379,26 @@ func (vf *VerifyFunc) doCall(st *State, fr *Frame, in ssa.Instruction, cc *ssa.C
 		after(r, nil)
 		return r, false
 	}
+	// generated protobuf getter `if x != nil { return x.F }; return zero` (shape checked on the SSA body): one
+	// conditional value instead of two paths
+	if static != nil && len(args) == 1 {
+		if fi, ok := eng.pbGetter(static); ok {
+			recv := args[0]
+			stT := static.Params[0].Type().Underlying().(*types.Pointer).Elem()
+			key, ft := eng.fieldKey(stT, fi)
+			if s := sortOf(ft); s != "" && structFields(ft) == nil {
+				fa := &Val{T: types.NewPointer(ft), S: SInt, Tm: st.subObj(recv.Tm, key), A: &Addr{Kind: "field", Base: recv.Tm, Key: key, ElemT: ft}}
+				lv := st.load(fa, ft)
+				st.loadFacts(lv)
+				zv := st.zeroVal(ft)
+				if lv != nil && zv != nil && lv.S == zv.S && len(lv.Fs) == 0 {
+					r := &Val{T: lv.T, S: lv.S, Tm: ite(not(eq(recv.Tm, "0")), lv.Tm, zv.Tm)}
+					after(r, nil)
+					return r, false
+				}
+			}
+		}
+	}
 	// inline small repo functions without contracts
 	if static != nil && eng.inlinable(static, len(st.frames)) && !vf.onStack(st, static) {
 		nf := &Frame{fn: static, regs: map[ssa.Value]*Val{}, vars: map[string]*Val{}, block: static.Blocks[0], inlined: true}
@@ -508,9 +529,58 @@ func (vf *VerifyFunc) applyContract(st *State, fr *Frame, in ssa.Instruction, fc
 		}
 	}
 	for _, c := range fc.Ensures {
+		if vf.eng.mentionsCalleeLocal(fc, c) {
+			continue // a postcondition over the callee's own locals says nothing a caller can use
+		}
 		t := vf.evalClauseIn(st, c, env, old, fc.PkgPath)
 		st.assume(t)
 	}
+	return res
+}
+
+var calleeLocalCache = map[*Clause]bool{}
+
+// mentionsCalleeLocal: the clause names a local variable of the function the contract belongs to (not a parameter or
+// result). Such clauses are obligations of the body only.
+func (e *Engine) mentionsCalleeLocal(fc *FuncContract, c *Clause) bool {
+	if fc.Kind != "func" {
+		return false
+	}
+	e.mu.Lock()
+	if v, ok := calleeLocalCache[c]; ok {
+		e.mu.Unlock()
+		return v
+	}
+	e.mu.Unlock()
+	res := false
+	if fn := e.funcsByKey[fc.Key]; fn != nil {
+		ids := map[string]bool{}
+		freeIdents(c.E, map[string]bool{}, ids)
+		names := map[string]bool{"result": true}
+		for _, n := range fc.Params {
+			names[n] = true
+		}
+		for _, n := range fc.Results {
+			names[n] = true
+		}
+		for id := range ids {
+			if names[id] {
+				continue
+			}
+			isParam := false
+			for _, p := range fn.Params {
+				if p.Name() == id {
+					isParam = true
+				}
+			}
+			if !isParam && e.localType(fn, id) != nil {
+				res = true
+			}
+		}
+	}
+	e.mu.Lock()
+	calleeLocalCache[c] = res
+	e.mu.Unlock()
 	return res
 }
 
@@ -1106,4 +1176,94 @@ func (vf *VerifyFunc) goSite(st *State, fr *Frame, g *ssa.Go) {
 		t := vf.evalClauseIn(st, c, env, nil, fc.PkgPath)
 		st.check("pre", fmt.Sprintf("go %s#%d/%s", label.name, label.ord, lbl(c, fmt.Sprint(i))), c.Prop, c.Src, st.pos(g), t)
 	}
+}
+
+var pbGetterCache = map[*ssa.Function]int{}
+
+// pbGetter recognises the protobuf accessor shape on the SSA body of fn:
+//   b0: if x != nil goto b1 else b2;  b1: return *(&x.F);  b2: return <zero constant>
+// and returns the field index of F. Anything else is not a getter (it is inlined or havocs as usual).
+func (e *Engine) pbGetter(fn *ssa.Function) (int, bool) {
+	e.mu.Lock()
+	defer e.mu.Unlock()
+	if v, ok := pbGetterCache[fn]; ok {
+		return v, v >= 0
+	}
+	res := -1
+	defer func() { pbGetterCache[fn] = res }()
+	if fn.Pkg == nil || !strings.HasPrefix(fn.Pkg.Pkg.Path(), modPath+"/protobuf/") || !strings.HasPrefix(fn.Name(), "Get") {
+		return -1, false
+	}
+	if len(fn.Params) != 1 || len(fn.Blocks) != 3 || fn.Signature.Results().Len() != 1 {
+		return -1, false
+	}
+	if _, ok := fn.Params[0].Type().Underlying().(*types.Pointer); !ok {
+		return -1, false
+	}
+	real := func(b *ssa.BasicBlock) []ssa.Instruction {
+		var out []ssa.Instruction
+		for _, in := range b.Instrs {
+			if _, ok := in.(*ssa.DebugRef); ok {
+				continue
+			}
+			out = append(out, in)
+		}
+		return out
+	}
+	b0 := real(fn.Blocks[0])
+	if len(b0) != 2 {
+		return -1, false
+	}
+	cmp, ok := b0[0].(*ssa.BinOp)
+	iff, ok2 := b0[1].(*ssa.If)
+	if !ok || !ok2 || cmp.Op != token.NEQ || cmp.X != ssa.Value(fn.Params[0]) || iff.Cond != ssa.Value(cmp) {
+		return -1, false
+	}
+	if c, ok := cmp.Y.(*ssa.Const); !ok || !c.IsNil() {
+		return -1, false
+	}
+	bt, bf := fn.Blocks[0].Succs[0], fn.Blocks[0].Succs[1]
+	it := real(bt)
+	if len(it) != 3 {
+		return -1, false
+	}
+	fa, ok := it[0].(*ssa.FieldAddr)
+	ld, ok2 := it[1].(*ssa.UnOp)
+	rt, ok3 := it[2].(*ssa.Return)
+	if !ok || !ok2 || !ok3 || fa.X != ssa.Value(fn.Params[0]) || ld.Op != token.MUL || ld.X != ssa.Value(fa) || len(rt.Results) != 1 || rt.Results[0] != ssa.Value(ld) {
+		return -1, false
+	}
+	iz := real(bf)
+	if len(iz) != 1 {
+		return -1, false
+	}
+	rz, ok := iz[0].(*ssa.Return)
+	if !ok || len(rz.Results) != 1 {
+		return -1, false
+	}
+	c, ok := rz.Results[0].(*ssa.Const)
+	if !ok {
+		return -1, false
+	}
+	if c.Value != nil {
+		// zero constant: "" / 0 / false
+		switch c.Value.Kind() {
+		case constant.String:
+			if constant.StringVal(c.Value) != "" {
+				return -1, false
+			}
+		case constant.Int, constant.Float:
+			if constant.Sign(c.Value) != 0 {
+				return -1, false
+			}
+		case constant.Bool:
+			if constant.BoolVal(c.Value) {
+				return -1, false
+			}
+		default:
+			return -1, false
+		}
+	}
+	res = fa.Field
+	return res, true
 }
